@@ -18,7 +18,7 @@ def base_worlds(r, n):
         for pi in range(1, nph + 1):
             objs = []
             for _ in range(r.choice([1, 1, 2])):
-                objs.append(pl.mk_pobj(r.choice([1, 1, 2]), r.choice([0, 1]) if ons else 1, name, body=2, cp=0))
+                objs.append(pl.mk_pobj(r.choice([1, 1, 2]), r.choice([0, 1]) if ons else 1, name, body=2, cp=r.choice([0, 0, 1, 2])))
                 name += 1
             phases.append({"name": pi, "class": False, "objects": objs})
         allobjs = [o for ph in phases for o in ph["objects"]]
@@ -77,12 +77,18 @@ def drift_ops(r, world):
     stopped by a collision never reaches the later phases (C01/C03)."""
     if world.get("_kind") in ("paused", "collision"):
         return None
-    keys = [{"gk": o["gk"], "ns": (o["ns"] or 1), "name": o["name"]} for st in world["sets"] for ph in st["phases"] for o in ph["objects"]]
-    if not keys:
+    objs = [o for st in world["sets"] for ph in st["phases"] for o in ph["objects"]]
+    if not objs:
         return None
-    k = r.choice(keys)
-    ch = r.choice(["delete", "body", "label", "status"])
+    o = r.choice(objs)
+    k = {"gk": o["gk"], "ns": (o["ns"] or 1), "name": o["name"]}
+    # stripping the owner references is repaired only where re-adopting an unowned object is permitted
+    # (collisionProtection IfNoController / None); under Prevent it is refused by design (C01)
+    ch = r.choice(["delete", "body", "label", "status"] + (["strip", "strip"] if o["cp"] in (1, 2) and world.get("_kind") in ("partial", "fresh") else []))
     e = {"key": k}
+    if ch == "strip":
+        e["strip_owners"] = True
+        return [e]
     if ch == "delete":
         e["delete"] = True
     elif ch == "body":
